@@ -110,6 +110,9 @@ func (g *gen) newBack(i int) BackSpec {
 			b.BGHeader = "X-Env"
 		}
 	}
+	if b.Resolver == "" && g.rng.Intn(10) == 0 {
+		b.Dyn = false // dynamic scaling off: endpoint lists are compared as they are
+	}
 	if g.pct(g.p.Dups) {
 		g.dupOK[b.ID()] = true
 	}
@@ -134,6 +137,12 @@ func cloneBack(b BackSpec) BackSpec {
 // churn changes the endpoints of a backend spec.
 func (g *gen) churn(b *BackSpec) string {
 	n := len(b.Eps)
+	if !b.Dyn && n > 1 && g.rng.Intn(3) == 0 {
+		// dynamic scaling off: the pure reordering of the same endpoints, which has to reload
+		// (sequence names follow the order)
+		g.rng.Shuffle(n, func(i, j int) { b.Eps[i], b.Eps[j] = b.Eps[j], b.Eps[i] })
+		return "reorder-static"
+	}
 	switch op := g.rng.Intn(10); {
 	case op == 0: // no-op resync
 		return "noop"
